@@ -423,7 +423,10 @@ class XBuffer(ABC):
         if sizepa > self.capacity:
             self.grow(sizepa)
         elif self.grow_step is not None:
-            self.grow(self.grow_step)
+            # as many steps as needed: one step per recursion level overflows
+            # the stack when the request is large compared to grow_step
+            nsteps = -(-sizepa // self.grow_step)
+            self.grow(nsteps * self.grow_step)
         else:
             self.grow(self.capacity)
 
